@@ -51,17 +51,17 @@ var forbiddenGlobals = []string{"os", "io", "package", "require", "debug", "dofi
 // Request is one script execution.
 type Request struct {
 	Mode    string `json:"mode"`
-	Script  string `json:"script"`            // final text (sentinel placeholder already substituted)
-	Input   string `json:"input"`             // JSON object handed to the script as `obj`
-	NumKind string `json:"num_kind"`          // Go type of integral numbers in obj: float64|int64|int|int32
-	Marker  string `json:"marker"`            // content marker of the sentinel files
-	Probe   bool   `json:"probe,omitempty"`   // also report VM state (globals) after the run
+	Script  string `json:"script"`             // final text (sentinel placeholder already substituted)
+	Input   string `json:"input"`              // JSON object handed to the script as `obj`
+	NumKind string `json:"num_kind"`           // Go type of integral numbers in obj: float64|int64|int|int32
+	Marker  string `json:"marker"`             // content marker of the sentinel files
+	Probe   bool   `json:"probe,omitempty"`    // also report VM state (globals) after the run
 	SkipGlb string `json:"skip_glb,omitempty"` // comma list of forbidden globals the script text itself mentions (fuzz)
 }
 
 // Response is what the worker observed.
 type Response struct {
-	Outcome   string            `json:"outcome"`  // "table" (Encode succeeded) | "error"
+	Outcome   string            `json:"outcome"`   // "table" (Encode succeeded) | "error"
 	ErrStage  string            `json:"err_stage"` // run | type | encode | provider
 	RetType   string            `json:"ret_type"`
 	JSON      string            `json:"json"`
